@@ -16,9 +16,9 @@ var chainAssume = []string{
 
 func chainFamilies(tier string) []string {
 	if fw.Quick(tier) {
-		return []string{"steady", "ragged", "leak", "churn", "capella", "custom", "steady", "ragged", "churn", "capella", "leak", "custom", "churn", "capella", "ragged", "mainnet"}
+		return []string{"steady", "ragged", "leak", "churn", "capella", "custom", "ejectall", "ragged", "churn", "capella", "leak", "custom", "churn", "capella", "ragged", "mainnet"}
 	}
-	return []string{"steady", "ragged", "leak", "churn", "capella", "custom", "mainnet", "churn", "capella", "ragged", "leak", "custom"}
+	return []string{"steady", "ragged", "leak", "churn", "capella", "custom", "mainnet", "churn", "capella", "ragged", "leak", "custom", "ejectall"}
 }
 
 func init() {
@@ -105,6 +105,9 @@ func init() {
 							}
 							if v.ExitEpoch != ^uint64(0) && !v.Slashed {
 								b.Inc("obs_exiting_validators")
+								if v.EffectiveBalance <= c.Sp.EJECTION_BALANCE {
+									b.Inc("obs_ejected_validators")
+								}
 							}
 							if v.EffectiveBalance < c.Sp.MAX_EFFECTIVE_BALANCE {
 								b.Inc("obs_effective_balance_below_max")
